@@ -86,15 +86,20 @@ def TMap.get : TMap → String → Option TySet
 
 def TMap.keys (m : TMap) : List String := m.map (·.1)
 
+/-- Drop repeated keys (keeps the last occurrence; only membership matters). -/
+def dedupKeys : List String → List String
+  | [] => []
+  | k :: ks => if ks.contains k then dedupKeys ks else k :: dedupKeys ks
+
 /-- `_TypeMap.__or__`: every key of either operand, sets united. -/
 def TMap.join (a b : TMap) : TMap :=
-  (a.keys ++ b.keys).eraseDups.map fun k => (k, TySet.union ((a.get k).getD []) ((b.get k).getD []))
+  (dedupKeys (a.keys ++ b.keys)).map fun k => (k, TySet.union ((a.get k).getD []) ((b.get k).getD []))
 
 /-- `types.update(new_symbols)`; `news` is in chronological order, a later entry for the same name wins. -/
 def TMap.update (m : TMap) (news : List (String × TySet)) : TMap := news.reverse ++ m
 
 /-- Drop shadowed bindings (same `get`; keeps the maps of the work-list model small). -/
-def TMap.norm (m : TMap) : TMap := m.keys.eraseDups.filterMap fun k => (m.get k).map fun T => (k, T)
+def TMap.norm (m : TMap) : TMap := (dedupKeys m.keys).filterMap fun k => (m.get k).map fun T => (k, T)
 
 /-- Inclusion observed through `get`: every key of `a` is a key of `b` with a superset. -/
 def TMap.leB (a b : TMap) : Bool :=
@@ -126,6 +131,11 @@ structure Resolver where
   unop : Nat → TySet → Option TySet
   binop : Nat → TySet → TySet → Option TySet
   listLit : List (Option TySet) → Option TySet
+  /-- `visit_Attribute` when the parent's types are known: `getattr` of the attribute on every parent type (CPython),
+  and, if that gives one stable static value, `res_value` of it.  (The resolver is assumed to return no static
+  values from `res_name`, as the harness resolver does; for an attribute of an attribute whose inner types are known
+  the real code goes through the inner node's static VALUE instead — modelled as the same query.) -/
+  attr : Nat → TySet → Option TySet
 
 /-- Facts about the function being analysed that `StmtInferrer`/`Analyzer` read from `activity.Scope`
 and from the `CLOSURE_TYPES` annotation. -/
@@ -140,6 +150,13 @@ structure FnEnv where
 /-- Name of a plain `Name` expression (the QN of an annotation / callee), if it is one. -/
 def nameOf? : Expr → Option String
   | .name _ s _ => some s
+  | _ => none
+
+/-- `anno.Basic.QN` of a callee / attribute chain over plain names (`a`, `a.b.c`); `none` for anything else
+(a call result, a literal, …; subscript-based QNs are not modelled, see `suppE`). -/
+def qnOf? : Expr → Option String
+  | .name _ s _ => some s
+  | .attr _ v a _ => (qnOf? v).map fun q => q ++ "." ++ a
   | _ => none
 
 def keywordValue : Expr → Expr
@@ -168,16 +185,21 @@ def tyE (R : Resolver) (env : FnEnv) (tin : TMap) : Expr → Option TySet
       | none => if env.isFree x then extType R env x else none
   | .seq _ .tuple es .load => (tyAll R env tin es).map tupleTypes
   | .seq _ .list es .load => R.listLit (tyOpts R env tin es)
+  | .attr i v _ _ =>
+      match tyE R env tin v with
+      | some T => R.attr i T
+      | none => none
   | .call i f args kws =>
-      match f with
-      | .name _ fname _ =>
-          if env.bound.contains fname then
-            match tin.get fname with
+      -- `f_name = QN.of(node.func)`; `f_name in scope.bound` -> the local definition's types, else `res_call`
+      match qnOf? f with
+      | some q =>
+          if env.bound.contains q then
+            match tin.get q with
             | none => none
             | some ft => if allFn ft then some (retTypes ft) else none   -- non-callable member: the real code raises
           else
             R.call i (tyE R env tin f) (tyOpts R env tin args) (tyOptsKw R env tin kws)
-      | _ => none
+      | none => R.call i (tyE R env tin f) (tyOpts R env tin args) (tyOptsKw R env tin kws)
   | .subscript i v s _ =>
       match tyE R env tin v, tyE R env tin s with
       | some a, some b => R.slice i a b
@@ -265,7 +287,7 @@ def readsE : Expr → List String
   | .name _ x .load => [x]
   | .name _ _ _ => []
   | .const .. => []
-  | .attr _ v _ _ => readsE v
+  | .attr i v a c => readsE v ++ (match qnOf? (.attr i v a c) with | some q => [q] | none => [])
   | .subscript _ v s _ => readsE v ++ readsE s
   | .call _ f a k => readsE f ++ readsEs a ++ readsEs k
   | .keyword _ _ _ v => readsE v
@@ -384,6 +406,10 @@ def annE (R : Resolver) (env : FnEnv) (tin : TMap) : Expr → List (Nat × TySet
   | .boolop _ _ vs => annEs R env tin vs
   | .ifexp _ a b c => annE R env tin a ++ annE R env tin b ++ annE R env tin c
   | .starred _ v _ => annE R env tin v
+  | .attr i v a c => annE R env tin v ++ selfAnn R env tin (.attr i v a c)
+  | .other _ _ _ kids => annEs R env tin kids          -- Dict, Slice, JoinedStr, …: `generic_visit`
+  | .comp _ _ es gs => annEs R env tin es ++ annEs R env tin gs
+  | .comprehension _ t it ifs _ => annE R env tin t ++ annE R env tin it ++ annEs R env tin ifs
   | .keyword _ _ _ v => annE R env tin v
   | .withitem _ c vars => annE R env tin c ++ annEs R env tin vars
   | _ => []
@@ -412,6 +438,7 @@ def annT (R : Resolver) (env : FnEnv) (tin : TMap) : Option TySet → Expr → L
   | none, .seq _ _ _ .store => []
   | rt, .starred _ v _ => annT R env tin rt v
   | _, .subscript i v s c => annE R env tin (.subscript i v s c)
+  | _, .attr i v a c => annE R env tin (.attr i v a c)
   | _, _ => []
 def annTs (R : Resolver) (env : FnEnv) (tin : TMap) (orig : TySet) (ityp : Option TySet) (i : Nat) :
     List Expr → List (Nat × TySet)
@@ -443,15 +470,26 @@ def annN (R : Resolver) (env : FnEnv) (tin : TMap) : CNode → List (Nat × TySe
 
 /-! ## Which nodes the model covers -/
 
+/-- Callees whose QN the model computes: a plain name or attribute chain over names, or something without a QN.
+(A subscript has a QN such as `a[0]` in the real code; not modelled.) -/
+def calleeOk : Expr → Bool
+  | .name .. => true
+  | .attr _ v _ _ => calleeOk v
+  | .subscript .. => false
+  | _ => true
+
+def otherKindOk (k : String) : Bool := k == "Dict" || k == "Slice" || k == "JoinedStr" || k == "FormattedValue"
+
 mutual
 def suppE : Expr → Bool
   | .name .. => true
   | .const .. => true
+  | .noneMarker => true
   | .seq _ .tuple es _ => suppEs es
   | .seq _ .list es _ => suppEs es
   | .seq _ .set _ _ => false
-  | .call _ (.name ..) a k => suppEs a && suppEs k
-  | .call .. => false
+  | .attr _ v _ _ => suppE v
+  | .call _ f a k => calleeOk f && suppE f && suppEs a && suppEs k
   | .keyword _ _ _ v => suppE v
   | .subscript _ v s _ => suppE v && suppE s
   | .compare _ l _ rs => suppE l && suppEs rs
@@ -460,6 +498,10 @@ def suppE : Expr → Bool
   | .boolop _ _ vs => suppEs vs
   | .ifexp _ a b c => suppE a && suppE b && suppE c
   | .starred _ (.name ..) .store => true
+  | .starred _ v .load => suppE v
+  | .other _ k _ kids => otherKindOk k && suppEs kids
+  | .comp _ _ es gs => suppEs es && suppEs gs
+  | .comprehension _ t it ifs _ => suppE t && suppE it && suppEs ifs
   | _ => false
 def suppEs : List Expr → Bool
   | [] => true
@@ -475,7 +517,7 @@ def suppN : CNode → Bool
   | .stmt (.assign _ ts v) => suppEs ts && suppE v
   | .stmt (.expr _ v) => suppE v
   | .stmt (.ret _ vs) => suppEs vs
-  | .stmt (.augAssign _ (.name ..) _ v) => suppE v
+  | .stmt (.augAssign _ t _ v) => suppE t && suppE v
   | .stmt (.assert_ _ t m) => suppE t && suppEs m
   | .stmt (.raise _ e c) => suppEs e && suppEs c
   | .stmt (.functionDef _ _ _ _ [] [] _) => true
@@ -486,7 +528,7 @@ def suppN : CNode → Bool
   | .stmt (.nonlocal ..) => true
   | .stmt _ => false
   | .expr (.arguments _ po ar va ko kd kw df) =>
-      (po ++ ar ++ va ++ ko ++ kw).all suppArg && kd.isEmpty && df.isEmpty
+      (po ++ ar ++ va ++ ko ++ kw).all suppArg && suppEs kd && suppEs df
   | .expr (.withitem _ c vars) => suppE c && suppEs vars
   | .expr e => suppE e
   | .forIter t it => suppE t && suppE it
